@@ -150,6 +150,15 @@ fn pseudoprime(rng: &mut Rng, iters: u64) {
             fail("pseudoprime", format!("pseudoprime({c}) = true for a composite"));
         }
     }
+    // multiword even numbers, in particular with a low word equal to 2
+    for k in [64u32, 65, 128, 200, 500] {
+        for low in [0u64, 2, 4, u64::MAX - 1] {
+            let c = (Uint::ONE << k) + Uint::from(low) + Uint::from((rng.next() % 4) << 1) * (Uint::ONE << 64u32);
+            if yamaquasi::pseudoprime(c) {
+                fail("pseudoprime", format!("pseudoprime({c}) = true for an even number"));
+            }
+        }
+    }
 }
 
 /// Dividers / Inverter against plain integer arithmetic
